@@ -300,7 +300,7 @@ class CodecScenario:
                 return R("td", __module__=K("<created>"), __qualname__=name, __name__=name, __total__=total, __annotations__=fields)
             return None
         # ---- compat predicates ------------------------------------------------------
-        callee = self.ri.resolve(call)
+        callee = self.ri.resolve(call, fval)
         if callee is None and isinstance(call.func, ast.Name) and isinstance(fval, S) and fval.name.startswith("class:"):
             fq = fval.name[len("class:"):]
             mname, _, cname = fq.rpartition(".")
